@@ -27,7 +27,15 @@ func runC11(c *Ctx) {
 			c.Sample(map[string]interface{}{"files": sw.FileMap()})
 		}
 	})
-	c.Finish("generated workspaces as in C05 (a third of them after a client settings notification that switches the references option `include the definition` off); textDocument/rename with a fresh identifier at every renameable occurrence; the returned "+
+	nDirty := c.N(60, 1500)
+	parallel(nDirty, 14, func(i int) {
+		r := root.Fork(uint64(4000000 + i))
+		sw := GenScopeWS(r, ScopeCfg{JoinPct: -1})
+		c.Eval(1)
+		c.Count("workspaces_with_an_unsaved_edit", 1)
+		checkC11WSDirty(c, sw, fmt.Sprintf("c11d%d", i), r.Fork(99), sw.Files[r.Intn(len(sw.Files))].Rel)
+	})
+	c.Finish("generated workspaces as in C05 (a third of them after a client settings notification that switches the references option `include the definition` off), plus workspaces in which the renamed local lives in a document with an unsaved edit that shifts every position; textDocument/rename with a fresh identifier at every renameable occurrence; the returned "+
 		"WorkspaceEdit is checked for (1) pairwise disjoint edits, (2) old name under every edit in the client's text, (3) set equality with the "+
 		"reference binder's occurrence class, (4) after applying it: re-parse, isomorphic binding graph, and (sampled) equal diagnostics of a fresh "+
 		"server up to the name. distinct_nontrivial = distinct (file text, occurrence) renamed with a definite expectation", 300)
@@ -92,8 +100,36 @@ func normDiagName(m, newName, oldName string) string {
 	return strings.ReplaceAll(m, newName, oldName)
 }
 
-func checkC11WS(c *Ctx, sw *ScopeWS, tag string, r *Rng) {
-	ws, srv, err := startScopeServer(c, sw, tag)
+func checkC11WS(c *Ctx, sw *ScopeWS, tag string, r *Rng) { checkC11WSDirty(c, sw, tag, r, "") }
+
+// checkC11WSDirty: with dirtyRel != "", that document is opened with a longer saved text and then edited, without saving,
+// to the text in sw (see checkC06WSDirty); only file-local bindings of that document are renamed then.
+func checkC11WSDirty(c *Ctx, sw *ScopeWS, tag string, r *Rng, dirtyRel string) {
+	var ws *Workspace
+	var srv *Server
+	var err error
+	if dirtyRel == "" {
+		ws, srv, err = startScopeServer(c, sw, tag)
+	} else {
+		files := sw.FileMap()
+		newText := files[dirtyRel]
+		files[dirtyRel] = "local zzPad = 1\nprint(zzPad)\n" + newText
+		ws = c.NewWorkspace(files)
+		srv, err = StartServer(ServerOpts{Root: ws.Root, Tag: tag})
+		if err == nil {
+			for rel, txt := range files {
+				srv.DidOpen(ws.URI(rel), txt)
+			}
+			srv.DidChangeFull(ws.URI(dirtyRel), 2, newText)
+			err = srv.Fence()
+		}
+		if err != nil {
+			if srv != nil {
+				srv.Close()
+			}
+			ws.Remove()
+		}
+	}
 	if err != nil {
 		c.Inconclusive("server failed on a generated workspace (C01's business): " + err.Error())
 		return
@@ -115,9 +151,16 @@ func checkC11WS(c *Ctx, sw *ScopeWS, tag string, r *Rng) {
 	var baseView map[string][]Diag
 	sampled := false
 	for _, f := range sw.Files {
+		if dirtyRel != "" && f.Rel != dirtyRel {
+			continue
+		}
 		uri := ws.URI(f.Rel)
 		for _, o := range f.Bind.Occs {
 			if !queryable(o) {
+				continue
+			}
+			if dirtyRel != "" && o.Decl == nil {
+				c.Count("dont_care_global_while_a_buffer_is_unsaved", 1)
 				continue
 			}
 			name := o.Tok.Val
@@ -248,7 +291,7 @@ func checkC11WS(c *Ctx, sw *ScopeWS, tag string, r *Rng) {
 				continue
 			}
 			// sampled: diagnostics of a fresh server on the renamed workspace equal the original's up to the name
-			if !sampled && r.Chance(1, 40) {
+			if !sampled && dirtyRel == "" && r.Chance(1, 40) {
 				sampled = true
 				if baseView == nil {
 					baseView = srv.View()
